@@ -529,6 +529,65 @@ theorem sartLoop_spec (hbb : dot b b ≠ 0) (fuel k : Nat) (xs cs : List α)
 
 end sartspec
 
+/-! ### proof-deepening pass: vocabulary and helpers -/
+
+/-- `W_{⊕j}` : column sum -/
+def colSum (W : List (List α)) (j : Nat) : α := (W.map (fun r => r.getD j 0)).sum
+
+/-- the back-projected, ray-length-weighted residual of cell `j`: `Σ_k [W_{k⊕} ≠ 0] W_{kj}/W_{k⊕} (b_k − (W x)_k)`;
+this is minus the `j`-th partial derivative of `½ Σ_k (b_k − (Wx)_k)² / W_{k⊕}` -/
+def backProj (W : List (List α)) (b x : List α) (j : Nat) : α :=
+  (List.zipWith (fun r bk => if r.sum = 0 then 0 else r.getD j 0 / r.sum * (bk - dot r x)) W b).sum
+
+theorem list_eq_iff_getD (n : Nat) (a c : List α) (ha : a.length = n) (hc : c.length = n) :
+    a = c ↔ ∀ j, j < n → a.getD j 0 = c.getD j 0 := by
+  constructor
+  · intro h j _; rw [h]
+  · intro h
+    apply List.ext_getElem (by rw [ha, hc])
+    intro j h1 h2
+    have := h j (by omega)
+    rwa [List.getD_eq_getElem?_getD, List.getD_eq_getElem?_getD, List.getElem?_eq_getElem h1, List.getElem?_eq_getElem h2,
+      Option.getD_some, Option.getD_some] at this
+
+theorem getD_nonneg (x : List α) (hx0 : ∀ v ∈ x, 0 ≤ v) (j : Nat) : 0 ≤ x.getD j 0 := by
+  rw [List.getD_eq_getElem?_getD]
+  cases h : x[j]? with
+  | none => simp
+  | some w => simp only [Option.getD_some]; exact hx0 w (List.mem_of_getElem? h)
+
+/-- scalar core of the fixed-point characterisation: `max 0 (v + c·s) = v` for `v ≥ 0`, `c > 0` -/
+theorem clip_fixed_iff (v c s : α) (hv : 0 ≤ v) (hc : 0 < c) :
+    max 0 (v + c * s) = v ↔ (0 < v → s = 0) ∧ (v = 0 → s ≤ 0) := by
+  constructor
+  · intro h
+    constructor
+    · intro hpos
+      by_cases hle : v + c * s ≤ 0
+      · rw [max_eq_left hle] at h; exact absurd h.symm hpos.ne'
+      · rw [max_eq_right (not_le.mp hle).le] at h
+        have : c * s = 0 := by linarith
+        rcases mul_eq_zero.mp this with h0 | h0
+        · exact absurd h0 hc.ne'
+        · exact h0
+    · intro hz
+      subst hz
+      rw [zero_add] at h
+      have hle : c * s ≤ 0 := by
+        by_contra hgt
+        rw [max_eq_right (not_le.mp hgt).le] at h
+        exact hgt h.le
+      by_contra hs
+      have := mul_pos hc (not_le.mp hs)
+      linarith
+  · rintro ⟨h1, h2⟩
+    rcases hv.lt_or_eq with hpos | hz
+    · rw [h1 hpos, mul_zero, add_zero]; exact max_eq_right hv
+    · have hs := h2 hz.symm
+      rw [← hz, zero_add]
+      apply max_eq_left
+      nlinarith
+
 end ring
 /-- the number of measurements only matters for a column-vector measurement -/
 theorem lsqAccept_col_only (m : Nat) (rW : Rep) (ra : ARep) (rL : Option Rep) (rb : Rep) (h : rb ≠ Rep.col) :
